@@ -20,6 +20,20 @@ INF = float("inf")
 # ------------------------------------------------------------------------------------------------------
 
 
+def check_gt_from_this_frame(ctx, st):
+    """The ground truth a frame result is built on must consist of objects of the very frame that was handed in."""
+    if st.result is None or st.gt_snapshot is None:
+        return True
+    mine = set(id(o) for o in st.gt_snapshot)
+    used = list(st.result.frame_ground_truth.objects) + [r.ground_truth_object for r in st.result.object_results
+                                                          if r.ground_truth_object is not None]
+    if any(id(g) not in mine for g in used):
+        ctx.violate("C13", "gt_from_this_frame", "a frame result is built on ground-truth objects that do not belong to the frame handed to add_frame_result",
+                    {"frame_objects": len(st.gt_snapshot), "used": len(used)}, st.index)
+        return False
+    return True
+
+
 class C13Monitor(X.Monitor):
     def __init__(self):
         self.snapshots = {}
@@ -50,6 +64,7 @@ class C13Monitor(X.Monitor):
         if st.frame is None:
             return
         ctx.probe("c13_steps")
+        check_gt_from_this_frame(ctx, st)
         now = [V.obj_digest(o) for o in st.estimates]
         if now != st.est_digest_before:
             ctx.violate("C13", "no_mutation_estimates", "an estimated object was modified by add_frame_result", {}, st.index)
@@ -401,6 +416,8 @@ def check_history_independence(ctx, lane, max_twins=6):
         ctx.probe("c13_fresh_twins")
         if twin.aborted or not twin.steps:
             continue
+        if not all(check_gt_from_this_frame(ctx, ts_) for ts_ in twin.steps):
+            return
         a = D.step_digest(ctx, st)
         b = D.step_digest(ctx, twin.steps[-1])
         d = D.diff(a, b, 1e-12)
@@ -837,6 +854,10 @@ def check_interleaved_manager(ctx, lane):
     noise_plan = dict(noise_plan)
     cfg = copy.deepcopy(plan["config"])
     cfg["frame"] = "map" if cfg["frame"] == "base_link" else "base_link"
+    if cfg.get("min_pts") is not None or cfg["task"] != "detection":
+        cfg["min_pts"] = 40 if not cfg.get("min_pts") else 0   # a different evaluator-level filter as well
+    if cfg.get("radii") is None:
+        cfg["radii"] = 1.5
     noise_plan["config"] = cfg
     noise_plan["lookup"] = dict(plan["lookup"], interp=False)
     sub = _sub_ctx(ctx, noise_plan)
@@ -849,14 +870,16 @@ def check_interleaved_manager(ctx, lane):
         for index, op in enumerate(plan["ops"]):
             if op["op"] == "analyze":
                 continue
-            inter.do_op(index, op)
             try:
-                noise.do_op(index, op)
+                noise.do_op(index, op)   # the other evaluator goes first at every turn
             except X.LaneAborted:
                 pass
+            inter.do_op(index, op)
     except X.LaneAborted:
         return
     ctx.probe("c13_interleaved_runs")
+    if not all(check_gt_from_this_frame(ctx, st_) for st_ in inter.steps):
+        return
     mine = [st for st in lane.steps]
     if len(inter.steps) != len(mine):
         ctx.violate("C13", "history_independent", "an evaluator performs a different number of deliveries when another evaluator is active", {}, None)
